@@ -1,6 +1,7 @@
 CONSTANTS EP = {"e1", "e2"}  Prefixes = {"ollama", "openai"}  Types = {"ollama", "vllm", "auto"}
 CONSTANT Focus = FALSE
 CONSTANT Strats = {"plain"}
+CONSTANT FlipFocus = FALSE
 CONSTANT DropFocus = FALSE
 CONSTANT AllowedChoices = {{}, {"ollama"}, {"ollama", "vllm"}}
 SPECIFICATION Spec
